@@ -211,8 +211,11 @@ def c02_6(ctx, r):
     cfg = ctx.cfg(fn)
     clears = [n for n in cfg.nodes if n.kind == "stmt" and isinstance(n.ast, ast.Assign) and ctx.src(n.ast.targets[0]) == "self._is_pending" and isinstance(n.ast.value, ast.Constant) and n.ast.value.value is False]
     comp = [n for s in ctx.sites(fn, short="AsyncCliCommand._complete") for n in ctx.nodes_of(fn, s.node)]
-    if not clears or not comp:
-        raise AnalysisError("C02.6", "is_complete: clearing of _is_pending / _complete() not found")
+    if not clears:
+        raise AnalysisError("C02.6", "is_complete: clearing of _is_pending not found")
+    if not comp:
+        r.bad(key_of(fn, "pending cleared without _complete"), fn.loc(clears[0].ast), "is_complete() declares completion but never calls _complete(): no result is recorded for a finished job", "has a recorded outcome")
+        return
     for n in clears:
         r.check(always_followed_by(ctx, fn, n, comp, NORMAL_KINDS) or dominated_by(ctx, fn, n, comp), "_is_pending=False is paired with _complete() before any return", key_of(fn, "pending cleared without _complete"), fn.loc(n.ast),
                 "is_complete() can report completion without having recorded the result: a dependent job starts while its blocker has no outcome on disk",
